@@ -376,7 +376,7 @@ struct Sched {
     std::vector<DP> dps;
     std::vector<RaceRec> races;
     uint64_t points;         // scheduling points executed
-    bool deadlock, bad_replay; uint32_t guard_blocks;
+    bool deadlock, bad_replay; uint32_t guard_blocks, lock_blocks;
     sem_t all_done;
 };
 static Sched* S = 0;
@@ -523,6 +523,58 @@ NOSAN static void sched_guard_release(uint8_t* g, bool ok) {
         if (next >= 0 && next != me->id) hand_over(me, next, T_READY);
         me->pend.kind = K_NONE;
     }
+}
+
+// pthread mutexes under the scheduler (a std::mutex added to libtins must not dead-lock the cooperative scheduler and
+// makes the accesses it protects ordered): lock = scheduling point + try-lock, blocking hands the token over
+__asm__(".symver __pthread_mutex_lock,__pthread_mutex_lock@GLIBC_2.2.5");       // glibc keeps these as compat symbols only
+__asm__(".symver __pthread_mutex_trylock,__pthread_mutex_trylock@GLIBC_2.2.5");
+__asm__(".symver __pthread_mutex_unlock,__pthread_mutex_unlock@GLIBC_2.2.5");
+extern "C" {
+int __pthread_mutex_lock(pthread_mutex_t*);
+int __pthread_mutex_trylock(pthread_mutex_t*);
+int __pthread_mutex_unlock(pthread_mutex_t*);
+}
+NOSAN static int sched_mutex_lock(pthread_mutex_t* m) {
+    MT* me = t_self;
+    InGuard ig;
+    S->points++;
+    me->pend.kind = K_GUARD; me->pend.addr = (uintptr_t)m; me->pend.size = sizeof *m;
+    if (!S->rr) { int next = decide(me->id, true); if (next >= 0 && next != me->id) hand_over(me, next, T_READY); }
+    for (;;) {
+        int r = __pthread_mutex_trylock(m);
+        if (r != EBUSY) { me->pend.kind = K_NONE; return r; }
+        S->lock_blocks++;
+        me->blocked_on = (uintptr_t)m;
+        int next = decide(me->id, false);
+        if (next < 0) { S->deadlock = true; sem_post(&S->all_done); for (;;) pause(); }
+        hand_over(me, next, T_BLOCKED);
+    }
+}
+NOSAN static int sched_mutex_unlock(pthread_mutex_t* m) {
+    MT* me = t_self;
+    InGuard ig;
+    int r = __pthread_mutex_unlock(m);
+    for (int i = 0; i < S->n; ++i)
+        if (S->t[i].state == T_BLOCKED && S->t[i].blocked_on == (uintptr_t)m) { S->t[i].state = T_READY; S->t[i].blocked_on = 0; }
+    S->points++;
+    if (!S->rr) {
+        me->pend.kind = K_GUARD; me->pend.addr = (uintptr_t)m; me->pend.size = sizeof *m;
+        int next = decide(me->id, true);
+        if (next >= 0 && next != me->id) hand_over(me, next, T_READY);
+        me->pend.kind = K_NONE;
+    }
+    return r;
+}
+extern "C" {
+NOSAN int pthread_mutex_lock(pthread_mutex_t* m) {
+    if (g_mode == 2 && t_role == 2 && !t_in) return sched_mutex_lock(m);
+    return __pthread_mutex_lock(m);
+}
+NOSAN int pthread_mutex_unlock(pthread_mutex_t* m) {
+    if (g_mode == 2 && t_role == 2 && !t_in) return sched_mutex_unlock(m);
+    return __pthread_mutex_unlock(m);
+}
 }
 
 // ====================================================================== 5. instrumentation callbacks, libc range functions, guards
@@ -681,6 +733,12 @@ struct In {
     void raw(void* d, size_t n) { if ((size_t)(e - p) < n) { bad = true; memset(d, 0, n); return; } memcpy(d, p, n); p += n; }
 };
 static uint64_t g_forks = 0;
+static int g_last_status = 0;           // wait status of the last child
+static std::string death(int st) {      // how a child ended, for reports
+    if (WIFSIGNALED(st)) return WTERMSIG(st) == SIGALRM ? "hang" : "crash:signal" + str(WTERMSIG(st));
+    if (WIFEXITED(st) && WEXITSTATUS(st)) return "exit" + str(WEXITSTATUS(st));
+    return "bad-output";
+}
 // run body in a forked child, return what it wrote; ok=false when the child died / timed out
 static std::string in_child(const std::function<void(Out&)>& body, bool& ok, int timeout_s = 60) {
     int fd[2];
@@ -716,6 +774,7 @@ static std::string in_child(const std::function<void(Out&)>& body, bool& ok, int
     close(fd[0]);
     int st = 0;
     while (waitpid(pid, &st, 0) < 0 && errno == EINTR) {}
+    g_last_status = st;
     ok = WIFEXITED(st) && WEXITSTATUS(st) == 0;
     return r;
 }
@@ -877,7 +936,7 @@ static Conflict conflicts(const Footprint& A, const Footprint& B, bool same) {
 // ====================================================================== 8. running threads under the scheduler (in a child)
 struct SchedResult {
     bool ok; std::vector<DP> dps; std::vector<RaceRec> races; std::vector<uint64_t> digests;
-    uint64_t points; bool deadlock, bad_replay; uint32_t guard_blocks, rr_switches;
+    uint64_t points; bool deadlock, bad_replay; uint32_t guard_blocks, lock_blocks, rr_switches; std::string how;
 };
 NOSAN static void* managed_thread(void* p) {
     MT* me = static_cast<MT*>(p);
@@ -904,7 +963,7 @@ static void sched_child(const std::vector<int>& wls, const std::vector<uintptr_t
     S = &sched;
     S->n = (int)wls.size();
     S->rr = rr; S->quantum = quantum; S->rr_switches = 0;
-    S->forced = forced; S->fi = 0; S->step = 0; S->points = 0; S->deadlock = S->bad_replay = false; S->guard_blocks = 0;
+    S->forced = forced; S->fi = 0; S->step = 0; S->points = 0; S->deadlock = S->bad_replay = false; S->guard_blocks = 0; S->lock_blocks = 0;
     S->cmin = ~(uintptr_t)0; S->cmax = 0;
     for (size_t i = 0; i < conf_bytes.size(); ++i) {      // sorted bytes -> ranges
         if (!S->conf.empty() && S->conf.back().hi == conf_bytes[i]) S->conf.back().hi++;
@@ -928,7 +987,7 @@ static void sched_child(const std::vector<int>& wls, const std::vector<uintptr_t
     while (sem_wait(&S->all_done) != 0) {}
     g_mode = 0;
     if (!S->deadlock) for (int i = 0; i < S->n; ++i) pthread_join(S->t[i].th, 0);
-    o.u64(S->points); o.u64(S->deadlock); o.u64(S->bad_replay || S->fi != S->forced.size()); o.u64(S->guard_blocks); o.u64(S->rr_switches);
+    o.u64(S->points); o.u64(S->deadlock); o.u64(S->bad_replay || S->fi != S->forced.size()); o.u64(S->guard_blocks); o.u64(S->lock_blocks); o.u64(S->rr_switches);
     o.u64((uint64_t)S->n);
     for (int i = 0; i < S->n; ++i) o.u64(S->t[i].state == T_DONE ? S->t[i].digest : 0xb10c4edULL);
     o.u64(S->dps.size());
@@ -939,12 +998,12 @@ static void sched_child(const std::vector<int>& wls, const std::vector<uintptr_t
 static SchedResult run_schedule(const std::vector<int>& wls, const std::vector<uintptr_t>& conf, const std::vector<Dec>& forced,
                                 bool rr = false, int quantum = 0) {
     SchedResult r;
-    r.ok = false; r.points = 0; r.deadlock = r.bad_replay = false; r.guard_blocks = r.rr_switches = 0;
+    r.ok = false; r.points = 0; r.deadlock = r.bad_replay = false; r.guard_blocks = r.lock_blocks = r.rr_switches = 0;
     bool ok;
     std::string s = in_child([&](Out& o) { sched_child(wls, conf, forced, rr, quantum, o); }, ok);
-    if (!ok) return r;
+    if (!ok) { r.how = death(g_last_status); return r; }
     In in(s);
-    r.points = in.u64(); r.deadlock = in.u64() != 0; r.bad_replay = in.u64() != 0; r.guard_blocks = (uint32_t)in.u64(); r.rr_switches = (uint32_t)in.u64();
+    r.points = in.u64(); r.deadlock = in.u64() != 0; r.bad_replay = in.u64() != 0; r.guard_blocks = (uint32_t)in.u64(); r.lock_blocks = (uint32_t)in.u64(); r.rr_switches = (uint32_t)in.u64();
     uint64_t n = in.u64();
     for (uint64_t i = 0; i < n && !in.bad; ++i) r.digests.push_back(in.u64());
     uint64_t nd = in.u64();
@@ -1003,10 +1062,10 @@ static std::string top_tins(const Pending& p, std::string* stack_out) {
 }
 
 struct ExploreStats {
-    uint64_t schedules, points, races, divergences, failing, guard_blocks, deadlocks;
+    uint64_t schedules, points, races, divergences, failing, guard_blocks, lock_blocks, deadlocks;
     int completed_bound; bool exhaustive;
     std::string first_race_sig, first_div_sig;
-    ExploreStats() : schedules(0), points(0), races(0), divergences(0), failing(0), guard_blocks(0), deadlocks(0), completed_bound(-1), exhaustive(true) {}
+    ExploreStats() : schedules(0), points(0), races(0), divergences(0), failing(0), guard_blocks(0), lock_blocks(0), deadlocks(0), completed_bound(-1), exhaustive(true) {}
 };
 static std::vector<Footprint> FP;
 
@@ -1027,12 +1086,19 @@ static ExploreStats explore(const std::vector<int>& wls, const std::vector<uintp
             SchedResult r = run_schedule(wls, conf, pre);
             st.schedules++;
             if (!r.ok || r.bad_replay) {
-                R.violation("harness:schedule-execution-failed", "child died, timed out or could not follow the schedule", "stage=2 wl=" + wl_names(wls) + " sched=" + sched_str(pre));
+                // the threads crashed or hung under this schedule (seen on racy trees: e.g. two threads resizing one static vector),
+                // or (bad_replay) the execution did not offer the recorded decision: neither can happen on a race-free tree
+                std::string how = r.ok ? "schedule-not-followed" : r.how;
+                st.failing++;
+                if (report) R.violation("sched:" + how + ":" + wl_names(wls), "the threads did not complete under this schedule (" + how + ")",
+                                        "stage=2 scale=" + str(g_scale) + " wl=" + wl_names(wls) + " sched=" + sched_str(pre));
+                else R.count("canary_schedule_failures");
                 st.exhaustive = false;
                 continue;
             }
             st.points += r.points;
             st.guard_blocks += r.guard_blocks;
+            st.lock_blocks += r.lock_blocks;
             std::string kase = "stage=2 scale=" + str(g_scale) + " wl=" + wl_names(wls) + " sched=" + sched_str(pre);
             std::vector<std::pair<std::string, std::string> > found;      // (signature, detail)
             if (r.deadlock) { st.deadlocks++; found.push_back(std::make_pair("sched:deadlock:" + wl_names(wls), "all remaining threads blocked")); }
@@ -1224,10 +1290,11 @@ static void job(int j) {
 
     // ---- canaries (job 0): racy pair must be found dependent, explored, race + divergence detected
     if (j == 0) {
-        int ca = -1, cb = -1, ga = -1, gb = -1;
+        int ca = -1, cb = -1, ga = -1, gb = -1, la = -1, lb = -1;
         for (int w = 0; w < c18::kNumWorkloads; ++w) {
             if (c18::kWorkloads[w].kind == c18::CANARY_RACY) { if (ca < 0) ca = w; else cb = w; }
             if (c18::kWorkloads[w].kind == c18::CANARY_GUARDED) { if (ga < 0) ga = w; else gb = w; }
+            if (c18::kWorkloads[w].kind == c18::CANARY_LOCKED) { if (la < 0) la = w; else lb = w; }
         }
         std::vector<int> pair; pair.push_back(ca); pair.push_back(cb);
         size_t ord = 0;
@@ -1262,6 +1329,22 @@ static void job(int j) {
         R.count("schedules", gs.schedules);
         R.count("transitions", gs.points);
         R.count("traces_validated_against_impl", gs.schedules);
+        // locked canary: a static cache protected by a std::mutex: dependent by footprint, explored: no race, no divergence, no dead-lock,
+        // and some schedule really blocked a thread at the lock
+        std::vector<int> lp; lp.push_back(la); lp.push_back(lb);
+        std::vector<uintptr_t> lconf = union_conflicts(lp, 0);
+        ExploreStats ls;
+        if (!lconf.empty()) ls = explore(lp, lconf, kBound, cap, false, false);
+        bool lock_ok = !lconf.empty() && ls.races == 0 && ls.divergences == 0 && ls.deadlocks == 0 && ls.failing == 0 && ls.lock_blocks > 0 &&
+                       ls.completed_bound == kBound;
+        R.count("lock_canary_schedules", ls.schedules);
+        R.count("lock_canary_blocked", ls.lock_blocks);
+        R.count("lock_canary_ok", lock_ok ? 1 : 0);
+        R.count("states", ls.schedules);
+        R.count("schedules", ls.schedules);
+        R.count("transitions", ls.points);
+        R.count("traces_validated_against_impl", ls.schedules);
+        if (!lock_ok) { fprintf(stderr, "C18 BROKEN CHECK: mutex model failed on the locked canary\n"); guard_ok = false; }
         if (!detected || !guard_ok) {
             fprintf(stderr, "C18 BROKEN CHECK: canary %s (racy canary: dependent=%d schedules=%llu races=%llu divergences=%llu; guarded canary: ordered=%zu "
                             "unordered=%zu races=%llu divergences=%llu blocked=%llu)\n",
@@ -1296,7 +1379,7 @@ static void job(int j) {
             R.count("transitions", r.points);
             R.count("representative_switches", r.rr_switches);
             std::string kase = "stage=1 scale=" + str(g_scale) + " wl=" + wl_names(wls);
-            if (!r.ok) { R.violation("harness:schedule-execution-failed", "representative schedule: child died or timed out", kase); continue; }
+            if (!r.ok) { R.violation("sched:" + r.how + ":representative", "representative schedule: the threads did not complete (" + r.how + ")", kase); continue; }
             if (r.deadlock) R.violation("sched:deadlock:" + wl_names(wls), "representative schedule deadlocked", kase);
             for (size_t i = 0; i < wls.size(); ++i)
                 if (r.digests[i] != FP[wls[i]].digest_cold)
@@ -1360,7 +1443,7 @@ static int replay(const std::string& kase) {
         printf("replay: %s, %zu conflicting bytes%s%s, schedule %s\n", kv["wl"].c_str(), conf.size(), conf.empty() ? "" : " first at ",
                conf.empty() ? "" : location_name(conf[0]).c_str(), kv["sched"].c_str());
         SchedResult r = run_schedule(wls, conf, parse_sched(kv["sched"]));
-        if (!r.ok) { printf("schedule could not be executed\n"); return 1; }
+        if (!r.ok) { printf("the threads did not complete under this schedule: %s\n", r.how.c_str()); return 1; }
         for (size_t i = 0; i < r.races.size(); ++i) {
             std::string sa, sb;
             top_tins(r.races[i].a, &sa); top_tins(r.races[i].b, &sb);
